@@ -25,6 +25,36 @@ Definition call_key (c : call) : string :=
   | CHook HCustomize _ => "hook customize"
   end.
 
+(* equality of a value the model holds in memory with the same value after it went over the wire:
+   an integral float64 (1.0) is serialised as 1 and read back as an integer *)
+Fixpoint jeqw (a b : json) : bool :=
+  match a, b with
+  | JNull, JNull => true
+  | JBool x, JBool y => Bool.eqb x y
+  | JInt x, JInt y => Z.eqb x y
+  | JFloat x, JFloat y => String.eqb x y
+  | JFloat x, JInt y => String.eqb x (string_of_Z y)
+  | JInt x, JFloat y => String.eqb (string_of_Z x) y
+  | JStr x, JStr y => String.eqb x y
+  | JText x, JText y => jeqw x y
+  | JArr x, JArr y =>
+      (fix go (x y : list json) : bool :=
+         match x, y with
+         | [], [] => true
+         | a :: x', b :: y' => jeqw a b && go x' y'
+         | _, _ => false
+         end) x y
+  | JObj x, JObj y =>
+      Nat.eqb (List.length x) (List.length y) &&
+      (fix go (x : amap) : bool :=
+         match x with
+         | [] => true
+         | (k, v) :: x' =>
+             match alookup k y with Some v' => jeqw v v' | None => false end && go x'
+         end) x
+  | _, _ => false
+  end.
+
 (* the names inside a ControllerRevision are appended while ranging over Go maps: compared as sets *)
 Fixpoint insert_str (x : string) (l : list string) : list string :=
   match l with
@@ -73,7 +103,7 @@ Definition req_eqb (a b : req) : bool :=
   verb_eqb (q_verb a) (q_verb b) && String.eqb (q_res a) (q_res b) && String.eqb (q_ns a) (q_ns b) &&
   String.eqb (q_name a) (q_name b) &&
   (if String.eqb (q_res a) rev_res then jeqb (norm_rev_body (q_body a)) (norm_rev_body (q_body b))
-   else jeqb (norm_waiting (q_body a)) (norm_waiting (q_body b))) &&
+   else jeqw (norm_waiting (q_body a)) (norm_waiting (q_body b))) &&
   String.eqb (q_uid_pre a) (q_uid_pre b) && String.eqb (q_prop a) (q_prop b).
 
 Definition call_eqb (a b : call) : bool :=
@@ -242,7 +272,12 @@ Definition observed_of (c : ccfg) (r : round) (sent : json) : umap :=
           (uinit (ch_api_version kc) (ch_kind kc) m)) (kids c) []
   end.
 
-Definition C02_check := check_with (fun c r => C02_round c (r_cache r) (r_events r)) proj_writes false.
+Definition C02_check (c : ccase) : verdict :=
+  match first_round_fail (fun r => C02_round (c_cfg c) (r_cache r) (r_events r)) (c_rounds c) 0 with
+  | Some w => PROPFAIL w
+  | None => if ssa (c_cfg c) then OK   (* the server-side-apply memo is process state outside the model *)
+            else corr_check proj_writes false c
+  end.
 
 Definition C03_check := check_with (fun c r =>
   orelse (C03_round c (r_cache r) (r_events r))
@@ -630,3 +665,57 @@ Definition C10_all_live_revisions_finalized (c : ccfg) (r : round) : option stri
 Definition C10_check_r := check_with (fun c r =>
   orelse (with_parent (fun p => orelse (C10_round c (r_cache r) p (r_events r)) (C10_handoff c (r_events r))) r)
          (C10_all_live_revisions_finalized c r)) proj_finalizer false.
+
+(* ================= C01: convergence, then quiescence ================= *)
+From MC Require Import Model.ApplyLaws.
+Definition round_child_requests (c : ccfg) (r : round) : nat :=
+  List.length (filter (fun e => match is_api e with
+                                | Some q => match child_res_of c q with Some _ => is_write q | None => false end
+                                | None => false end) (r_events r)).
+
+Definition round_effective_writes (r : round) : nat :=
+  List.length (filter (fun e => match is_api e with Some q => is_write q && effective e | None => false end) (r_events r)).
+
+Fixpoint last_n {A} (n : nat) (l : list A) : list A := rev (firstn n (rev l)).
+
+Definition C01_case (c : ccase) : option string :=
+  let cfg := c_cfg c in
+  let tail := last_n 2 (c_rounds c) in
+  if existsb (fun r => negb (sync_result_eqb (r_result r) SDone)) tail then Some "sync-still-failing-after-the-bound" else
+  if existsb (fun r => negb (Nat.eqb (round_child_requests cfg r) 0)) tail then Some "child-requests-never-stop" else
+  if existsb (fun r => negb (Nat.eqb (round_effective_writes r) 0)) tail then Some "store-still-changing" else
+  (* owned children = desired children; desired fields in place where the strategy permits updates *)
+  match rev (c_rounds c) with
+  | [] => None
+  | lastr :: _ =>
+      match round_desired cfg (r_events lastr), k_parent (r_cache lastr) with
+      | Some (sent, ds), Some parent =>
+          let puid := get_uid parent in
+          let owned := filter (fun o => controlled_by o puid &&
+                                        existsb (fun kc => String.eqb (get_api_version o) (ch_api_version kc) && String.eqb (get_kind o) (ch_kind kc)) (kids cfg))
+                              (c_final c) in
+          let desired := flat_map (fun d => match d with Some o => [o] | None => [] end) ds in
+          let same := fun (a b : json) => String.eqb (get_api_version a) (get_api_version b) && String.eqb (get_kind a) (get_kind b) &&
+                                         String.eqb (get_name a) (get_name b) &&
+                                         (String.eqb (get_ns a) (get_ns b) || String.eqb (get_ns a) "" || String.eqb (get_ns b) "") in
+          if existsb is_deleting owned then None else
+          if negb (forallb (fun o => existsb (same o) desired) owned) then Some "owns-a-child-that-is-not-desired" else
+          if negb (forallb (fun d => existsb (same d) owned) desired) then Some "desired-child-missing-or-not-owned" else
+          if forallb (fun d =>
+               match find (same d) owned with
+               | Some o =>
+                   let m := method_of cfg (group_of (get_api_version d)) (get_kind d) in
+                   if String.eqb m method_on_delete then true else
+                   (* every field the hook specified has the value the hook specified (status and system metadata aside) *)
+                   containsb (JObj (aremove "status" (obj_map d))) (JObj (aremove "status" (obj_map o)))
+               | None => true end) desired
+          then None else Some "desired-field-not-in-place"
+      | _, _ => None
+      end
+  end.
+
+Definition C01_check (c : ccase) : verdict :=
+  match C01_case c with
+  | Some w => PROPFAIL w
+  | None => if ssa (c_cfg c) then OK else corr_check proj_all true c
+  end.
